@@ -100,7 +100,7 @@ Definition atom_ok (prev : N) (a : atom) : Prop :=
   | ARaw c => c < 128 /\ c <> c_lt /\ c <> c_amp /\ c <> c_cr /\ is_ctrl c = false
               /\ ~ (prev = c_rb /\ c = c_gt)          (* "]>" is written "]&gt;" : no "]]>" can arise *)
               /\ ~ (prev = c_cr /\ c = c_nl)          (* CR then LF is the atom ACrLf *)
-  | AEnt raw c => Forall (fun b => is_ent_char b = true) raw /\ decode_entity raw = EntText c /\ is_ctrl c = false
+  | AEnt raw c => Forall (fun b => is_ent_char b = true) raw /\ decode_entity raw = EntText c /\ is_ctrl c = false /\ c < 128
   | ACr => True
   | ACrLf => True
   end.
